@@ -99,6 +99,7 @@ class LeanResult:
         self.errors = []
         self.theorems = {}   # name -> axioms
         self.wall = 0.0
+        self.driver_ok = False
 
 
 def lean_build(need_extract=True):
@@ -110,6 +111,8 @@ def lean_build(need_extract=True):
         if ex.returncode != 0:
             res.errors.append("extract.py failed: " + ex.stderr[-2000:])
             return res
+    d = sh(["lake", "build", "driver"], cwd=LEAN)
+    res.driver_ok = d.returncode == 0
     b = sh(["lake", "build"], cwd=LEAN)
     if b.returncode != 0:
         msg = (b.stdout + b.stderr)
@@ -450,6 +453,7 @@ class Check:
         self.assumptions = []
         self.lean = None
         self.exe = None
+        self.broken_proof = None
 
     def violation(self, replay, found_input):
         self.violations.append((replay, found_input))
@@ -496,11 +500,13 @@ def write_audit():
 
 
 def prepare(ck, need_harness=True):
-    """steps (1) and (2) of every check; returns False when a violation was already reported"""
+    """steps (1) and (2) of every check. Returns "ok", "search" (proof obligations broke but the
+    model still runs: look for a failing input) or "stop"."""
     write_audit()
     ck.lean = lean_build()
+    mode = "ok"
     if not ck.lean.ok:
-        path = write_replay(ck.prop, "proof", {
+        ck.broken_proof = write_replay(ck.prop, "proof", {
             "property": ck.prop, "kind": "proof obligations no longer check",
             "errors": ck.lean.errors[:30],
             "note": "a theorem, a generated obligation (constants re-extracted from /repo) or the audit failed",
@@ -508,18 +514,20 @@ def prepare(ck, need_harness=True):
         ck.coverage = {"obligations": max(1, len(ck.lean.theorems)), "discharged": 0,
                        "checker_cmd": "lake build && lake env lean Audit.lean", "trusted_base": ["Lean 4.33.0 kernel"],
                        "errors": ck.lean.errors[:10]}
-        ck.violation(path, False)
-        return False
-    if need_harness:
+        mode = "search" if ck.lean.driver_ok else "stop"
+    if need_harness and mode != "stop":
         ck.exe, err = build_hdyn()
         if err:
             path = write_replay(ck.prop, "harness", {"property": ck.prop, "kind": "harness does not build against the current tree", "errors": err[-4000:]})
-            ck.coverage = {"obligations": len(ck.lean.theorems), "discharged": len(ck.lean.theorems),
-                           "checker_cmd": "lake build && lake env lean Audit.lean", "trusted_base": ["Lean 4.33.0 kernel"],
-                           "errors": [err[-2000:]]}
+            if not ck.coverage:
+                ck.coverage = {"obligations": len(ck.lean.theorems), "discharged": len(ck.lean.theorems),
+                               "checker_cmd": "lake build && lake env lean Audit.lean", "trusted_base": ["Lean 4.33.0 kernel"],
+                               "errors": [err[-2000:]]}
             ck.violation(path, False)
-            return False
-    return True
+            return "stop"
+    if mode == "stop":
+        ck.violation(ck.broken_proof, False)
+    return mode
 
 
 def known_findings_for(prop):
@@ -566,8 +574,15 @@ def main():
         log("no check for " + str(a.arg))
         return 2
     ck = Check(a.arg, a.tier if a.tier in ("quick", "thorough") else "quick", a.seed)
-    if prepare(ck, need_harness=getattr(fn, "needs_hdyn", True)):
+    mode = prepare(ck, need_harness=getattr(fn, "needs_hdyn", True))
+    if mode in ("ok", "search"):
+        saved = ck.coverage
         fn(ck)
+        if mode == "search":
+            ck.coverage.update({"obligations": saved.get("obligations", 1), "discharged": 0, "errors": saved.get("errors")})
+            if not any(found for _, found in ck.violations):
+                ck.violations = []
+                ck.violation(ck.broken_proof, False)
     for k in known_findings_for(a.arg):
         print("KNOWN-FINDING: property=%s %s" % (a.arg, k.get("what", "")), flush=True)
     return ck.finish(level=getattr(fn, "level", "proof"))
